@@ -1,6 +1,7 @@
 import Driver.Util
 import MpcVerif.Model.Gmw
 import MpcVerif.Model.GmwHist
+import MpcVerif.Model.LevelsMod
 
 namespace Drv.C10
 open Mpc Mpc.Gmw Drv
@@ -58,6 +59,29 @@ def levelDigest (c : Circuit) : String :=
   let lv := c.assignLevels true
   let s := (lv.1.zipIdx).foldl (fun acc li => (acc + li.1 * (li.2 % 65521 + 1)) % 4294967291) 0
   s!"{lv.2}/{s}"
+
+/-- `lvl <sizes|-> <circuit> <x|->`: the level table of `AssignLevels(TargetGMW)` (digest), the level oracle
+`topoCheck` on it and - when inputs are given - `Circuit.compute` as every party's output.  Used for the extreme
+circuits (AND depth / level width / wires / outputs / input widths across 2^8 and 2^16), for which the
+quadratic `blocks` of the share-level model is not run. -/
+def handleLvl (sizes nw nin nout gates xs : String) : String :=
+  match parseCircuit nw nin nout gates with
+  | none => "bad-op"
+  | some c =>
+    let lv := c.assignLevels true
+    let topo := if topoCheck c.numWires (c.gates.zip lv.1) then "1" else "0"
+    let head := s!"lv={levelDigest c};topo={topo}"
+    if sizes == "-" then head else
+    match (splitOn' sizes).mapM String.toNat? with
+    | none => "bad-op"
+    | some sz =>
+      -- the parties' input bits, LSB first, `sizes[p]` of them each: `inputBits sizes x` of the model
+      let xb := (splitOn' xs).map parseBits
+      if xb.length != sz.length || (xb.map List.length) != sz then "bad-op" else
+      let o := bitsStr (c.computeFast xb.flatten)   -- = c.compute (C10_driver_compute)
+      s!"{head};o={",".intercalate (sz.map fun _ => o)}"
+where
+  splitOn' (s : String) : List String := s.splitOn ","
 
 /-! ### pool event sequences -/
 
@@ -207,6 +231,7 @@ def handle (args : List String) : String :=
   match args with
   | ["run", sizes, nw, nin, nout, gates, xs, rnd, pools] => handleRun sizes nw nin nout gates xs rnd pools
   | "hist" :: pools :: rest => handleHist pools rest
+  | ["lvl", sizes, nw, nin, nout, gates, xs] => handleLvl sizes nw nin nout gates xs
   | ["tb", n, words, as, bs, ss, rs, ds] => handleTb n words as bs ss rs ds
   | ["app", dst, src, n] =>
     match parseState dst, parseState src, n.toNat? with
